@@ -190,6 +190,7 @@ class TrioConn:
         self.handler_done_seq: Optional[int] = None
         self.handler_exc: Optional[BaseException] = None
         self.sent_after_close = 0
+        self.peer_lost = False  # the client reset the connection / made writes fail
         self.stream = SimStream(self, sock_kind)
         self.server_stream: Any = SimTLSStream(self.stream, alpn) if tls else self.stream
         env.nursery.start_soon(self._run)
@@ -240,6 +241,7 @@ class TrioConn:
         self.stream.feed_eof()
 
     def reset(self) -> None:
+        self.peer_lost = True
         self.log.add("creset", conn=self.cid)
         self.stream.peer_reset()
 
@@ -254,6 +256,7 @@ class TrioConn:
         self.stream.client_accept_bytes(n)
 
     def fail_writes(self, after_n: int = 0) -> None:
+        self.peer_lost = True
         self.stream.fail_after = after_n
 
     @property
